@@ -4,5 +4,6 @@ cd /verif
 for m in /tmp/seed/*/out/*/meta.json; do
   id=$(echo $m | cut -d/ -f4); x=$(echo $m | cut -d/ -f6)
   [ -f /verif/seeded/$id-$x/meta.json ] && continue
+  case " $SKIP " in *" $id "*) continue;; esac
   echo "$id $x"
 done | xargs -P 4 -L 1 sh -c './evalseed.py $0 $1 --seeds 2 --keep > /verif/logs/evalseed.$0-$1.log 2>&1; echo "done $0 $1: $(grep -A3 caught_by /verif/logs/evalseed.$0-$1.log | tr -d "\n " | cut -c1-80)"'
